@@ -131,7 +131,7 @@ theorem runBody_marks_other (i : Nat) (t : Task) (e : Env) (s : State) (x : Byte
 /-- the body logs at most one attempt, and it is an attempt at task `i` made at `e.now` -/
 theorem runBody_log (i : Nat) (t : Task) (dry : Bool) (e : Env) (s : State) :
     (runBody cfg H pr i t dry e s).1.log = s.log ∨
-    ∃ fp ok, (runBody cfg H pr i t dry e s).1.log = s.log ++ [⟨i, fp, e.now, ok⟩] := by
+    ∃ fp ok src, (runBody cfg H pr i t dry e s).1.log = s.log ++ [⟨i, fp, e.now, ok, src⟩] := by
   have hmk := mkdirTask_fields t s
   unfold runBody
   simp only
@@ -150,9 +150,9 @@ theorem runBody_log (i : Nat) (t : Task) (dry : Bool) (e : Env) (s : State) :
       · exact h1
     · right
       split
-      · exact ⟨_, _, by simp only [hmk.2.2.1]; rfl⟩
-      · exact ⟨_, _, by simp only [onError_log, hmk.2.2.1]; rfl⟩
-      · exact ⟨_, _, by simp only [hmk.2.2.1]; rfl⟩
+      · exact ⟨_, _, _, by simp only [hmk.2.2.1]; rfl⟩
+      · exact ⟨_, _, _, by simp only [onError_log, hmk.2.2.1]; rfl⟩
+      · exact ⟨_, _, _, by simp only [hmk.2.2.1]; rfl⟩
 
 theorem isUpToDate_log (t : Task) (dry : Bool) (now : Nat) (s : State) : (isUpToDate H pr t dry now s).1.log = s.log := by
   cases dry with
@@ -167,14 +167,21 @@ theorem invoke_marks_other {j : Nat} {tj : Task} (htj : pr.tasks[j]? = some tj) 
   · rw [(invoke_readOnly Cfg.fixed H pr rfl rfl rfl j m e s hro).1]
   · cases m with
     | run =>
-      rw [invoke_run Cfg.fixed H pr htj]
-      split
-      · exact isUpToDate_marks_other H pr tj e.now s x hx
-      · rw [runBody_marks_other Cfg.fixed H pr j tj e _ x hx]
-        exact isUpToDate_marks_other H pr tj e.now s x hx
+      cases hce : checkErr tj e s.files with
+      | true => rw [invoke_run_err Cfg.fixed H pr htj e s hce]
+      | false =>
+        rw [invoke_run Cfg.fixed H pr htj e s hce]
+        split
+        · exact isUpToDate_marks_other H pr tj e.now s x hx
+        · rw [runBody_marks_other Cfg.fixed H pr j tj e _ x hx]
+          exact isUpToDate_marks_other H pr tj e.now s x hx
     | force =>
       rw [invoke_force Cfg.fixed H pr htj]
-      exact runBody_marks_other Cfg.fixed H pr j tj e s x hx
+      rw [runBody_marks_other Cfg.fixed H pr j tj e _ x hx]
+      unfold forceStart
+      split
+      · rfl
+      · exact isUpToDate_marks_other H pr tj e.now s x hx
     | dry => simp [Mode.readOnly] at hro
     | status => simp [Mode.readOnly] at hro
     | listJson => simp [Mode.readOnly] at hro
@@ -184,7 +191,7 @@ theorem invoke_marks_other {j : Nat} {tj : Task} (htj : pr.tasks[j]? = some tj) 
 /-- an invocation of task `j` logs at most one attempt, at task `j` -/
 theorem invoke_log (j : Nat) (m : Mode) (e : Env) (s : State) :
     (invoke Cfg.fixed H pr j m e s).1.log = s.log ∨
-    ∃ fp ok, (invoke Cfg.fixed H pr j m e s).1.log = s.log ++ [⟨j, fp, e.now, ok⟩] := by
+    ∃ fp ok src, (invoke Cfg.fixed H pr j m e s).1.log = s.log ++ [⟨j, fp, e.now, ok, src⟩] := by
   by_cases hro : m.readOnly = true
   · left; rw [(invoke_readOnly Cfg.fixed H pr rfl rfl rfl j m e s hro).1]
   · cases htj : pr.tasks[j]? with
@@ -194,15 +201,79 @@ theorem invoke_log (j : Nat) (m : Mode) (e : Env) (s : State) :
     | some tj =>
       cases m with
       | run =>
-        rw [invoke_run Cfg.fixed H pr htj]
-        split
-        · left; exact isUpToDate_log H pr tj false e.now s
-        · have := runBody_log Cfg.fixed H pr j tj false e (isUpToDate H pr tj false e.now s).1
-          rw [isUpToDate_log] at this
-          exact this
+        cases hce : checkErr tj e s.files with
+        | true => left; rw [invoke_run_err Cfg.fixed H pr htj e s hce]
+        | false =>
+          rw [invoke_run Cfg.fixed H pr htj e s hce]
+          split
+          · left; exact isUpToDate_log H pr tj false e.now s
+          · have := runBody_log Cfg.fixed H pr j tj false e (isUpToDate H pr tj false e.now s).1
+            rw [isUpToDate_log] at this
+            exact this
       | force =>
         rw [invoke_force Cfg.fixed H pr htj]
-        exact runBody_log Cfg.fixed H pr j tj false e s
+        have := runBody_log Cfg.fixed H pr j tj false e (forceStart H pr tj e s)
+        rw [(forceStart_effect H pr tj e s).1] at this
+        exact this
+      | dry => simp [Mode.readOnly] at hro
+      | status => simp [Mode.readOnly] at hro
+      | listJson => simp [Mode.readOnly] at hro
+      | list => simp [Mode.readOnly] at hro
+      | summary => simp [Mode.readOnly] at hro
+
+/-- every attempt a body logs carries the fingerprint OF its ghost source list -/
+theorem runBody_log_src (i : Nat) (t : Task) (dry : Bool) (e : Env) (s : State) :
+    (runBody cfg H pr i t dry e s).1.log = s.log ∨
+    ∃ a, (runBody cfg H pr i t dry e s).1.log = s.log ++ [a] ∧ a.fp = fpOfList H a.src := by
+  have hmk := mkdirTask_fields t s
+  unfold runBody
+  simp only
+  split
+  · left; exact onError_log t s
+  · split
+    · left
+      have h1 : (if cfg.dryMkdir = true then mkdirTask t s else s).log = s.log := by
+        split
+        · exact hmk.2.2.1
+        · rfl
+      split
+      · simp only; split
+        · rw [onError_log]; exact h1
+        · exact h1
+      · exact h1
+    · right
+      split
+      · exact ⟨_, by simp only [hmk.2.2.1]; rfl, fpNow_eq_fpOfList H pr t _⟩
+      · exact ⟨_, by simp only [onError_log, hmk.2.2.1]; rfl, fpNow_eq_fpOfList H pr t _⟩
+      · exact ⟨_, by simp only [hmk.2.2.1]; rfl, fpNow_eq_fpOfList H pr t _⟩
+
+/-- … hence so does every attempt an invocation logs -/
+theorem invoke_log_src (j : Nat) (m : Mode) (e : Env) (s : State) :
+    (invoke Cfg.fixed H pr j m e s).1.log = s.log ∨
+    ∃ a, (invoke Cfg.fixed H pr j m e s).1.log = s.log ++ [a] ∧ a.fp = fpOfList H a.src := by
+  by_cases hro : m.readOnly = true
+  · left; rw [(invoke_readOnly Cfg.fixed H pr rfl rfl rfl j m e s hro).1]
+  · cases htj : pr.tasks[j]? with
+    | none =>
+      left
+      cases m <;> simp [Mode.readOnly] at hro <;> simp [invoke, htj]
+    | some tj =>
+      cases m with
+      | run =>
+        cases hce : checkErr tj e s.files with
+        | true => left; rw [invoke_run_err Cfg.fixed H pr htj e s hce]
+        | false =>
+          rw [invoke_run Cfg.fixed H pr htj e s hce]
+          split
+          · left; exact isUpToDate_log H pr tj false e.now s
+          · have := runBody_log_src Cfg.fixed H pr j tj false e (isUpToDate H pr tj false e.now s).1
+            rw [isUpToDate_log] at this
+            exact this
+      | force =>
+        rw [invoke_force Cfg.fixed H pr htj]
+        have := runBody_log_src Cfg.fixed H pr j tj false e (forceStart H pr tj e s)
+        rw [(forceStart_effect H pr tj e s).1] at this
+        exact this
       | dry => simp [Mode.readOnly] at hro
       | status => simp [Mode.readOnly] at hro
       | listJson => simp [Mode.readOnly] at hro
